@@ -190,7 +190,7 @@ EXTRA_THEOREMS = {
     # the whole of src/wasm.rs, translated from the current source, is the model Wasm.v; and the interpreted wasm.rs computes
     # HighwayHash / agrees with the interpreted portable.rs
     # the whole of src/aarch64.rs likewise (Neon.v), raw-pointer loads included
-    "C03": [(SKN, SKN_ALL), (SLN, ["SRCN_source_is_highwayhash", "SRCN_source_agrees_with_portable_source", "SRCN_source_continue",
+    "C03": [(SKN, SKN_ALL), (SLN, ["SRCN_source_is_highwayhash", "SRCN_source_agrees_with_portable_source", "SRCN_source_agrees_with_wasm_source", "SRCN_source_continue",
                                    "SRCN_source_checkpoint_interchangeable", "SRCN_source_restore_total"])],
     "C04": [(SKW, SKW_ALL), (SLW, ["SRCW_source_is_highwayhash", "SRCW_source_agrees_with_portable_source", "SRCW_source_continue",
                                    "SRCW_source_checkpoint_interchangeable", "SRCW_source_restore_total"])],
